@@ -1,7 +1,7 @@
 """Configuration of ./check C08 (shared model coq/Ts)."""
 
 ENTRY = {'coq_dir': 'C08',
- 'coq_deps': ['Ts', 'Mgr', 'C06', 'Link'],
+ 'coq_deps': ['Ts', 'Mgr', 'C06', 'C07', 'Link'],
  'model_files': ['Glue'],
  'harness': 'c08',
  'cases': {'quick': 1500, 'thorough': 10000},
@@ -87,7 +87,9 @@ ENTRY = {'coq_dir': 'C08',
  'assumptions': ['at most two open connections per peer, fresh connection ids (C06): an assumption of the base theorems (`feasible 2`); DISCHARGED '
                  'for a service under the manager model by the link coq/Link/C06_C08.v (C08_stream_wellformed_under_manager, '
                  'C08_alternation_under_manager, C08_no_panic_under_manager, C08_multi_stream_wellformed_under_manager; via '
-                 "C06_provides_C08_feasible) - left there: the manager's own environment `xtrace` and the cap-independent rest `feasible_rest` (next "
-                 'item)',
+                 "C06_provides_C08_feasible) - left there: the manager's own environment and the order constraints `xtrace` (a THEOREM for protocol "
+                 'i of a node of connection tasks: C06_C08_xtrace_on_node, coq/Link/C07_C06.v, whence C08_stream_wellformed_on_node / '
+                 'C08_alternation_on_node with env_ok for transport-delivered events, globally fresh connection ids and a live protocol i left) and '
+                 'the cap-independent rest `feasible_rest` (next item)',
                  'per-connection FIFO: no substream/closed notification for a connection before its established or after its closed notification',
                  'HashMap / FuturesUnordered iteration order is not observable (dumps and downgrade lists are sorted)']}
